@@ -408,3 +408,160 @@ pub fn report_lines(out: &mut Out, rng: &mut Rng, kit: &Kit, s: &Subject, name: 
 		}
 	}
 }
+
+// ---------------------------------------------------------------------------------------------
+// C15 at chain level: discarded (read-only or rolled-back) extensions must leave the in-memory
+// leaf set and bitmap accumulator at the head state.
+
+/// blocks from the genesis to `id`, root first
+pub fn path_to(kit: &Kit, id: usize) -> Vec<usize> {
+	let mut p = vec![id];
+	let mut cur = id;
+	while let Some(q) = kit.blks[cur].parent {
+		p.push(q);
+		cur = q;
+	}
+	p.reverse();
+	p
+}
+
+/// The bitmap root computed FROM SCRATCH and independently of the node: the blocks of the head's
+/// own path are replayed here (outputs get consecutive leaf indices in block order, inputs remove
+/// the latest instance of their commitment), then a fresh `BitmapAccumulator` is initialised from
+/// the unspent leaf indices. Returns (root, number of unspent leaves, number of leaves).
+pub fn scratch_bitmap_root(kit: &Kit, head: usize) -> (Hash, usize, u64) {
+	use grin_chain::txhashset::BitmapAccumulator;
+	use std::collections::{BTreeSet, HashMap};
+	let mut idx_of: HashMap<grin_util::secp::pedersen::Commitment, u64> = HashMap::new();
+	let mut unspent: BTreeSet<u64> = BTreeSet::new();
+	let mut n = 0u64;
+	for b in path_to(kit, head) {
+		let blk = &kit.blks[b].block;
+		for o in blk.outputs() {
+			idx_of.insert(o.commitment(), n);
+			unspent.insert(n);
+			n += 1;
+		}
+		let ins: Vec<grin_core::core::CommitWrapper> = blk.inputs().into();
+		for i in ins {
+			if let Some(ix) = idx_of.get(&i.commitment()) {
+				unspent.remove(ix);
+			}
+		}
+	}
+	let mut a = BitmapAccumulator::new();
+	a.init(unspent.iter().cloned(), n).expect("bitmap init");
+	(a.root(), unspent.len(), n)
+}
+
+/// C15 oracle on the implementation: the bitmap root the node commits to (in-memory accumulator)
+/// is the root computed from scratch over the unspent set of the head's own path
+pub fn bitmap_oracle(out: &mut Out, kit: &Kit, s: &Subject, name: &str, stage: &str, stats: &mut BTreeMap<String, u64>) {
+	let head = s.c().head().unwrap().last_block_h;
+	let hid = match kit.by_hash.get(&head) {
+		Some(i) => *i,
+		None => return,
+	};
+	let (want, n_unspent, n) = scratch_bitmap_root(kit, hid);
+	let got = {
+		let ts = s.c().txhashset();
+		let ts = ts.read();
+		ts.roots().map(|r| r.output_roots.bitmap_root)
+	};
+	*stats.entry("c15:bitmap-root-vs-scratch".into()).or_insert(0) += 1;
+	match got {
+		Ok(g) if g == want => {}
+		Ok(g) => out.raw(&format!(
+			"#ORACLE-FAIL C15 bitmap root the node commits to differs from the root computed from scratch over the unspent set of its head's path: subject={} head=b{} stage={} node={} scratch={} ({} unspent of {} leaves)",
+			name,
+			hid,
+			stage,
+			hex(&g.as_bytes()[..8]),
+			hex(&want.as_bytes()[..8]),
+			n_unspent,
+			n
+		)),
+		Err(e) => out.raw(&format!("#ORACLE-FAIL C15 roots() failed: subject={} head=b{} stage={}: {}", name, hid, stage, error_class(&e))),
+	}
+}
+
+/// number of outputs created and inputs spent by a block
+pub fn shape(kit: &Kit, b: usize) -> (usize, usize) {
+	(kit.blks[b].block.outputs().len(), kit.blks[b].block.inputs().len())
+}
+
+/// Discarded extensions that rewind: `get_merkle_proof` for an output of an OLDER header (0..3 blocks
+/// below the head, sometimes deeper), sometimes `txhashset_read(older header)` and `segmenter()`.
+/// Every one of them must be a no-op for every observation: head / unspent set / roots before and
+/// after, the bitmap root against the from-scratch root, and (printed for the model) the unspent set.
+pub fn discarded_ops(out: &mut Out, rng: &mut Rng, kit: &Kit, s: &Subject, name: &str, stats: &mut BTreeMap<String, u64>) {
+	let chain = s.c();
+	let head = chain.head().unwrap().last_block_h;
+	let hid = match kit.by_hash.get(&head) {
+		Some(i) => *i,
+		None => return,
+	};
+	let path = path_to(kit, hid);
+	if path.len() < 2 {
+		return;
+	}
+	let before = (s.obs(kit), s.roots());
+	let mut done: Vec<String> = vec![];
+	// the range an op rewinds over: balanced (as many outputs created as spent) or not
+	let mut note = |stats: &mut BTreeMap<String, u64>, what: &str, below: usize| {
+		let (mut c, mut sp) = (0usize, 0usize);
+		for b in &path[path.len() - below..] {
+			let (o, i) = shape(kit, *b);
+			c += o;
+			sp += i;
+		}
+		let bal = if below == 0 {
+			"no-rewind"
+		} else if c == sp {
+			"rewind-restores-as-many-as-it-drops"
+		} else {
+			"rewind-unbalanced"
+		};
+		*stats.entry(format!("c15:discarded:{}:{}", what, bal)).or_insert(0) += 1;
+	};
+	for _ in 0..(1 + rng.below(2)) {
+		let max_below = (path.len() - 1).min(3);
+		let below = if rng.chance(1, 8) { rng.below(path.len() as u64) as usize } else { rng.below(max_below as u64 + 1) as usize };
+		let anc = path[path.len() - 1 - below];
+		let hdr = kit.blks[anc].block.header.clone();
+		// an output of that header's block (its coinbase), or of an older one
+		let src = path[rng.below((path.len() - below) as u64) as usize];
+		let o = kit.blks[src].block.outputs()[0].clone();
+		let r = chain.get_merkle_proof(o.identifier(), &hdr);
+		note(stats, "merkle-proof-at-older-header", below);
+		done.push(format!("get_merkle_proof(output of b{}, header b{} = head-{}) = {}", src, anc, below, r.map(|_| "ok".to_string()).unwrap_or_else(|e| format!("err:{}", error_class(&e)))));
+	}
+	if rng.chance(1, 6) {
+		let below = rng.below((path.len() - 1).min(3) as u64 + 1) as usize;
+		let anc = path[path.len() - 1 - below];
+		let r = chain.txhashset_read(kit.blks[anc].block.hash());
+		note(stats, "txhashset_read-at-older-header", below);
+		done.push(format!("txhashset_read(b{} = head-{}) = {}", anc, below, r.map(|_| "ok".to_string()).unwrap_or_else(|e| format!("err:{}", error_class(&e)))));
+	}
+	if rng.chance(1, 6) {
+		let r = chain.segmenter();
+		*stats.entry("c15:discarded:segmenter".into()).or_insert(0) += 1;
+		done.push(format!("segmenter() = {}", r.map(|_| "ok".to_string()).unwrap_or_else(|e| format!("err:{}", error_class(&e)))));
+	}
+	let after = (s.obs(kit), s.roots());
+	if before != after {
+		out.raw(&format!(
+			"#ORACLE-FAIL C15 a discarded extension changed what the node reports: subject={} head=b{} ops=[{}] before=[{} {}] after=[{} {}]",
+			name,
+			hid,
+			done.join("; "),
+			before.0,
+			before.1,
+			after.0,
+			after.1
+		));
+	}
+	// for the model: the unspent set is still the replay of the head's path
+	out.line(&format!("chain obs {}", name), &after.0);
+	bitmap_oracle(out, kit, s, name, "after-discarded-extensions", stats);
+}
